@@ -17,10 +17,12 @@ func init() {
 		Technique: "value-origin analysis of every recorder call site of package cl: the object handed to Def is traced to its constructor and the constructor's position argument is compared with the identifier handed to Def; the object handed to Use must not be constructed at the use site",
 		Explanation: "Decides, for every site of package cl that records a definition or a use, the structural part of 'a definition's object is declared at the identifier's own position, a use refers to an object declared elsewhere': " +
 			"(1) at each `rec.Def(id, obj)` whose obj is built in the same function by a go/types or gogen constructor (NewField, NewParam, NewVar, NewFunc, NewTypeName, NewPkgName, …), the position argument of that constructor is the position of that very identifier (`id.Pos()`, `id.NamePos`, or a variable assigned from it); sites whose object comes from elsewhere (a lookup, an object gogen created from the identifier) are listed, not decided; " +
-			"(2) at each `rec.Use(id, obj)` the object is obtained by a lookup (scope, field, method, import) and never constructed on the spot.",
+			"(2) at each `rec.Use(id, obj)` the object is obtained by a lookup (scope, field, method, import) and never constructed on the spot. Short variable declarations (rule def-only-new): the identifiers compileAssignStmt hands to defNames for `:=` are collected by appends guarded by `scope.Lookup(name) == nil`, so a name that is merely re-assigned is not recorded as a definition. Converted Go nodes (rule go-node-guard): every recording goxRecorder.Member makes for a selector stays inside the fromgo.CheckIdent guard, so nodes converted from a mixed package's Go files never enter Types/Uses.",
 		NotCovered: "objects created inside gogen (their positions are whatever cl passed to gogen's constructors, which rule 1 covers only when the constructor call is in the same function), the Types/Scopes maps, and the agreement with go/types on name, kind and type of every object.",
 		Run:        runC12,
 		Controls: []Control{
+			{Name: "short-var-decl-records-all-names", File: "cl/stmt.go", Old: "\t\t\t\tif scope.Lookup(v.Name) == nil {\n\t\t\t\t\tnewNames = append(newNames, v)\n\t\t\t\t}\n", New: "\t\t\t\tnewNames = append(newNames, v)\n", Expect: "def-only-new/compileAssignStmt"},
+			{Name: "member-type-recorded-for-go-nodes", File: "cl/recorder.go", Old: "\t\t\tp.Use(sel, obj)\n\t\t\tp.Type(v, tv)\n\t\t}\n", New: "\t\t\tp.Use(sel, obj)\n\t\t\t_ = tv\n\t\t}\n\t\tp.Type(v, typesutil.NewTypeAndValueForObject(obj))\n", Expect: "go-node-guard/goxRecorder.Member"},
 			{Name: "field-def-at-type-pos", File: "cl/func_type_and_var.go", Old: "\t\t\tfld := types.NewField(name.NamePos, pkg, name.Name, typ, false)\n\t\t\tfields = append(fields, fld)", New: "\t\t\tfld := types.NewField(field.Type.Pos(), pkg, name.Name, typ, false)\n\t\t\tfields = append(fields, fld)", Expect: "def-position/toStructType:name"},
 			{Name: "param-def-at-field-pos", File: "cl/func_type_and_var.go", Old: "\t\tparam := pkg.NewParam(name.Pos(), name.Name, typ)\n\t\targs = append(args, param)", New: "\t\tparam := pkg.NewParam(fld.Type.Pos(), name.Name, typ)\n\t\targs = append(args, param)", Expect: "def-position/toParam:name"},
 			{Name: "use-of-fresh-object", File: "cl/expr.go", Old: "\t\t\trec.Use(name, t.Field(idx))", New: "\t\t\trec.Use(name, types.NewField(name.Pos(), ctx.pkg.Types, name.Name, t.Field(idx).Type(), false))", Expect: "use-elsewhere/compileStructLitInKeyVal:name"},
@@ -46,6 +48,8 @@ func runC12(c *core.Check) {
 		return
 	}
 	info := pk.TypesInfo
+	c12ShortVarDecl(c, pk)
+	c12GoIdentGuard(c, pk)
 	nDef, nUse := 0, 0
 	for _, fd := range core.AllFuncDecls(pk) {
 		if fd.Body == nil {
